@@ -91,6 +91,9 @@ func genBGV(t *rapid.T) BGVCase {
 	}
 	logN := rapid.IntRange(4, maxLogN).Draw(t, "logN")
 	nQ := []int{4, 3, 5, 6, 2, 4, 5, 6}[rapid.IntRange(0, 7).Draw(t, "nQ")]
+	if h.Thorough() && nQ == 6 && rapid.Bool().Draw(t, "deep") {
+		nQ = 7 // degrees up to 63
+	}
 	m := uint64(2) << logN
 	used := map[uint64]bool{}
 	c.Params.LogN = logN
@@ -109,8 +112,8 @@ func genBGV(t *rapid.T) BGVCase {
 	c.Invariant = rapid.IntRange(0, 2).Draw(t, "mode") == 0
 	L := nQ - 1
 	maxDepth := L
-	if maxDepth > 5 {
-		maxDepth = 5
+	if maxDepth > 6 {
+		maxDepth = 6
 	}
 	c.Degree = genDegree(t, maxDepth)
 	depth := advertisedDepth(c.Degree)
